@@ -526,7 +526,38 @@ static int corpus_next(corpus_iter *it) {
             strcpy(it->family, "S2h");
             return 1;
         }
-        case 7: { /* S3 adversarial */
+        case 7: { /* S2e: EVERY length 1..L (not only the listed ones), thinned product of the other dimensions */
+            const uint64_t L = it->thorough ? 520 : 300;
+            static const int shapes_q[2] = {SH_PERM, SH_SAW};
+            static const int steps_t[3] = {1, 2, 5};  /* indices into CORPUS_STEP: 1, 255, 2^56 */
+            static const int bases_t[2] = {0, 4};
+            const uint64_t per = it->thorough ? (uint64_t)SH_N * 3 * 2 * 2 : 2 * 2;
+            if (i >= L * per) {
+                it->stage = 8;
+                it->i = 0;
+                continue;
+            }
+            size_t n = (size_t)(i / per) + 1;
+            uint64_t t = i % per;
+            it->i++;
+            if (n > it->maxn) {
+                continue;
+            }
+            if (it->thorough) {
+                int shape = (int)(t % SH_N);
+                t /= SH_N;
+                int stepi = steps_t[t % 3];
+                t /= 3;
+                int basei = bases_t[t % 2];
+                t /= 2;
+                corpus_structured(it, n, shape, CORPUS_STEP[stepi], basei, t ? OUT_LAST : OUT_NONE, 3);
+            } else {
+                corpus_structured(it, n, shapes_q[t % 2], CORPUS_STEP[(t / 2) ? 3 : 1], 0, OUT_NONE, 0);
+            }
+            strcpy(it->family, "S2e");
+            return 1;
+        }
+        case 8: { /* S3 adversarial */
             it->i++;
             if (!corpus_adversarial(it, i)) {
                 it->stage++;
